@@ -569,3 +569,108 @@ class Dense(Monitor):
                     if err > self.K_acc * bound:
                         world.violate(P, P + ".interp_accuracy", "|sol(mid of step %d) - exact| = %.3e > %g * %.3e (h=%.3g)" % (j, err, self.K_acc, bound, h))
                         break
+
+
+# ======================================================================================== C19
+class Lookup(Monitor):
+    """C19: trajectory lookup by index, iteration, by time (dense / nearest sample) and whole-run slices."""
+
+    def __init__(self, prop="C19"):
+        self.prop = prop
+
+    def after_op(self, world, i, op, pre, snap):
+        P = self.prop
+        sysm = world.system
+        t, y = snap["t"], snap["y"]
+        n = snap["n"]
+        # integer indices like a sequence
+        for idx in range(-n - 2, n + 3):
+            want_err = not (-n <= idx < n)
+            try:
+                got = sysm[idx]
+                err = None
+            except IndexError:
+                got, err = None, "IndexError"
+            except Exception as e:      # any other exception type is wrong as well
+                got, err = None, type(e).__name__
+            if want_err:
+                if err != "IndexError":
+                    world.violate(P, P + ".index_out_of_range", "index %d on %d rows: expected IndexError, got %s" % (idx, n, err or "a value"))
+                    break
+            else:
+                if err is not None:
+                    world.violate(P, P + ".index_value", "index %d on %d rows raised %s" % (idx, n, err))
+                    break
+                if not (bitwise_equal(got.t, t[idx]) and bitwise_equal(got.y, y[idx])):
+                    world.violate(P, P + ".index_value", "index %d returned t=%r, expected row %d t=%r" % (idx, _f(got.t), idx % n, _f(t[idx])))
+                    break
+        # iteration
+        try:
+            items = []
+            for k, it in enumerate(sysm):
+                items.append(it)
+                if k > n + 3:
+                    break
+            ok = len(items) == n and all(bitwise_equal(it.t, t[k]) and bitwise_equal(it.y, y[k]) for k, it in enumerate(items))
+            if not ok:
+                world.violate(P, P + ".iteration", "iteration yielded %d items for %d rows (or wrong rows)" % (len(items), n))
+        except Exception as e:
+            world.violate(P, P + ".iteration", "iteration raised %s" % type(e).__name__)
+        if n < 2:
+            return
+        dtype = t.dtype
+        lo, hi = (t[0], t[-1]) if t[0] <= t[-1] else (t[-1], t[0])
+        span = hi - lo
+        # query times: on samples, between, midpoints, outside
+        qs = []
+        for j in range(n - 1):
+            a, b = t[j], t[j + 1]
+            qs.append(a)
+            qs.append(a + (b - a) * dtype.type(0.25))
+            qs.append(a + (b - a) * dtype.type(0.5))
+            qs.append(a + (b - a) * dtype.type(0.8125))
+        qs.append(t[-1])
+        qs.append(lo - span * dtype.type(0.3))
+        qs.append(hi + span * dtype.type(0.3))
+        if len(qs) > 60:
+            step = len(qs) // 60 + 1
+            qs = qs[::step] + qs[-3:]
+        dense = bool(world.scn["system"].get("dense")) and sysm.sol is not None
+        mono = np.all(np.diff(t) > 0) or np.all(np.diff(t) < 0)
+        if not mono:
+            return      # reversal histories: "nearest in time" is ambiguous, not claimed
+        for q in qs:
+            q = np.asarray(q, dtype=dtype)[()]
+            try:
+                got = sysm[q]
+            except Exception as e:
+                world.violate(P, P + ".time_lookup", "lookup at t=%r raised %s: %s" % (_f(q), type(e).__name__, str(e)[:80]))
+                break
+            if dense:
+                inside = lo <= q <= hi
+                if not inside:
+                    continue        # outside the integrated range the statement does not say what is returned
+                want = sysm.sol(q)
+                if not (bitwise_equal(np.asarray(got.y), np.asarray(want))):
+                    world.violate(P, P + ".time_lookup_dense", "system[%r].y differs from sol(%r)" % (_f(q), _f(q)))
+                    break
+            else:
+                dist = np.abs(t - q)
+                dmin = dist.min()
+                cands = [k for k in range(n) if dist[k] == dmin]
+                hit = [k for k in cands if bitwise_equal(np.asarray(got.t), t[k]) and bitwise_equal(np.asarray(got.y), y[k])]
+                if not hit:
+                    k0 = cands[0]
+                    world.violate(P, P + ".time_lookup_nearest", "system[%r] returned t=%r, nearest recorded sample is t[%d]=%r (grid %s)"
+                                  % (_f(q), _f(got.t), k0, _f(t[k0]), "increasing" if t[0] < t[-1] else "decreasing"))
+                    break
+        # slices spanning the whole run, end points in either order
+        for (a, b) in ((t[0], t[-1]),):        # from the start to the end of the run, in the order of integration
+            try:
+                sl = sysm[a:b]
+                ok = len(sl.t) == n and bitwise_equal(np.asarray(sl.t), t) and bitwise_equal(np.asarray(sl.y), y)
+            except Exception as e:
+                ok = False
+            if not ok:
+                world.violate(P, P + ".whole_run_slice", "system[%r:%r] did not return the whole run of %d rows" % (_f(a), _f(b), n))
+                break
